@@ -56,15 +56,25 @@
 (*   - a failed PUT of a blob ends BlobPut (the chunked fall back of the   *)
 (*     code is not modelled: drift, not a verdict)                         *)
 (*   - token servers do not redirect; credential helpers are not modelled  *)
-(*   - SchemeBound / StripOnRedirect / HonorsHost model candidate repairs  *)
-(*     (all FALSE = the code as it is today)                               *)
+(*   - the switches select the variant of the code that is modelled:       *)
+(*     SchemeBound = TRUE      /repo since 14e04da (clientHost.authAllowed: *)
+(*                             no credentials on http://<own TLS host>)    *)
+(*     StripOnRedirect = TRUE  /repo since 7d8bea3 (checkRedirect drops a   *)
+(*                             forwarded Authorization when the host       *)
+(*                             changes)                                    *)
+(*     HonorsHost = FALSE      AuthCreds still ignores its host argument   *)
+(*                             (S3, known finding C11-1); TRUE models its  *)
+(*                             repair                                      *)
+(*     TRUE/TRUE/FALSE is the code as it is today (default of all          *)
+(*     configs); all FALSE is the code as found, kept to explain the       *)
+(*     fixrev-C11-* seeds and the history of the findings                  *)
 (***************************************************************************)
 EXTENDS AuthObl, Naturals, Sequences, FiniteSets, TLC
 
 CONSTANTS
-  HonorsHost,       \* AuthCreds returns credentials only for the clientHost's own hostname
-  SchemeBound,      \* no credentials on a http URL of a host configured for TLS
-  StripOnRedirect,  \* Authorization is removed when a redirect leaves the host (also to a sub domain)
+  HonorsHost,       \* AuthCreds returns credentials only for the clientHost's own hostname (not in /repo: S3)
+  SchemeBound,      \* no credentials on a http URL of a host configured for TLS (in /repo since 14e04da)
+  StripOnRedirect,  \* Authorization is removed when a redirect leaves the host, also to a sub domain (since 7d8bea3)
   MaxFaults,        \* number of replies (registry or token server) that differ from the natural one
   Confs,            \* configurations explored
   ChalKinds,        \* subset of {"none","mal","uns","bnr","b1","b2","t","bt"}
@@ -505,7 +515,10 @@ Spec == Init /\ [][Next]_vars
 (* Properties of the design (the observation level statement is AuthProp)  *)
 (***************************************************************************)
 NoLeak == leaks = {}
-\* the code as it is today leaks, but only through these three mechanisms; in particular a
+\* the code as it is today (SchemeBound, StripOnRedirect, ~HonorsHost) leaks only through handlers that
+\* are keyed by a foreign host and filled with the clientHost's own credentials (S3)
+LeaksOnlyS3 == \A l \in leaks : l.via = "foreign-handler"
+\* the code as found leaked, but only through these three mechanisms; in particular a
 \* credential chosen by a handler that is keyed by the clientHost's own hostname never reaches
 \* another host (registries, mirror and upstream stay separated whatever the servers do)
 LeaksOnlyKnown ==
